@@ -71,6 +71,40 @@ Proof.
   unfold wf0, sadd, canon; intros Ha Hb H; sint_cases; crush_arith;
     (split; [lia | split; [lia | try discriminate; try congruence; intros; lia]]).
 Qed.
+Lemma schecked_add_toZ0 a b r : wf0 a -> wf0 b -> schecked_add a b = Ok r -> toZ r = toZ a + toZ b /\ wf0 r /\ canon r.
+Proof.
+  unfold wf0, schecked_add, canon; intros Ha Hb H; sint_cases; crush_arith;
+    (split; [lia | split; [lia | try discriminate; try congruence; intros; lia]]).
+Qed.
+Lemma schecked_sub_toZ0 a b r : wf0 a -> wf0 b -> schecked_sub a b = Ok r -> toZ r = toZ a - toZ b /\ wf0 r /\ canon r.
+Proof.
+  unfold wf0, schecked_sub, canon; intros Ha Hb H; sint_cases; crush_arith;
+    (split; [lia | split; [lia | try discriminate; try congruence; intros; lia]]).
+Qed.
+(* comparisons against a non-negative constant, without upper bounds *)
+Lemma s_is_negative_toZ0 a : wf0 a -> s_is_negative a = (toZ a <? 0).
+Proof.
+  unfold wf0, s_is_negative, toZ. destruct a as [v []]; cbn; intros H;
+  destruct (Z.eqb_spec v 0); cbn; symmetry; [apply Z.ltb_ge | apply Z.ltb_lt | apply Z.ltb_ge | apply Z.ltb_ge]; lia.
+Qed.
+Lemma sgtb_spos0 a c : wf0 a -> 0 <= c -> sgtb a (spos c) = (c <? toZ a).
+Proof.
+  intros Ha Hc. unfold sgtb, scmp. unfold s_is_positive. rewrite !s_is_negative_toZ0 by (auto; unfold wf0, spos; cbn; lia).
+  change (toZ (spos c)) with c. unfold wf0 in Ha.
+  destruct (Z.ltb_spec (toZ a) 0) as [La|La], (Z.ltb_spec c 0) as [Lc|Lc]; cbn [andb negb]; try lia.
+  assert (Ea : toZ a = sval a) by (unfold toZ in *; destruct (sneg a); lia).
+  rewrite Ea. cbn [sval spos]. unfold Z.ltb. rewrite (Z.compare_antisym (sval a) c).
+  destruct (sval a ?= c); reflexivity.
+Qed.
+Lemma sltb_spos0 a c : wf0 a -> 0 <= c -> sltb a (spos c) = (toZ a <? c).
+Proof.
+  intros Ha Hc. unfold sltb, scmp. unfold s_is_positive. rewrite !s_is_negative_toZ0 by (auto; unfold wf0, spos; cbn; lia).
+  change (toZ (spos c)) with c. unfold wf0 in Ha.
+  destruct (Z.ltb_spec (toZ a) 0) as [La|La], (Z.ltb_spec c 0) as [Lc|Lc]; cbn [andb negb]; try lia.
+  all: try (symmetry; apply Z.ltb_lt; lia).
+  assert (Ea : toZ a = sval a) by (unfold toZ in *; destruct (sneg a); lia).
+  rewrite Ea. cbn [sval spos]. reflexivity.
+Qed.
 Lemma wf_wf0 a : wf a -> wf0 a.
 Proof. unfold wf, wf0; lia. Qed.
 
